@@ -565,6 +565,9 @@ type obs struct {
 	policies []opolicy
 	servers  map[string]*oserver
 	loadedOK bool // HasCertificateForSubject agrees with the l flags of the case
+	phase2    bool
+	phase2Err bool
+	managing  map[string]string // TLS.managing after phase 2: subject -> issuer key
 }
 
 var locRe = regexp.MustCompile(`^https://\{http\.request\.host\}(?::([0-9]+))?\{http\.request\.uri\}$`)
@@ -648,7 +651,7 @@ func netCode(n string) int {
 	return -1
 }
 
-func observe(ctx caddy.Context, c *kase) *obs {
+func observe(ctx caddy.Context, c *kase, cfg *caddy.Config, phase2 bool) *obs {
 	o := &obs{servers: map[string]*oserver{}, loadedOK: true}
 	appI, err := ctx.App("http")
 	if err != nil {
@@ -714,6 +717,18 @@ func observe(ctx caddy.Context, c *kase) *obs {
 		if tlsApp.HasCertificateForSubject(n.s) != n.ld {
 			o.loadedOK = false
 		}
+	}
+	if phase2 {
+		// automatic HTTPS phase 2: hand allCertDomains to the TLS app's Manage, read what it
+		// took on, then cancel the config's context (stops the asynchronous issuance and
+		// cleans the modules up)
+		o.phase2 = true
+		if err := app.VerifPhase2(); err != nil {
+			o.phase2Err = true
+		}
+		o.managing = tlsApp.VerifManaging()
+		caddy.VerifCancelConfig(cfg)
+		return o
 	}
 	tlsApp.Cleanup()
 	return o
@@ -817,7 +832,7 @@ func provision(c *kase, rot int) *obs {
 	if err != nil {
 		return &obs{errClass: classifyErr(err)}
 	}
-	return observe(ctx, c)
+	return observe(ctx, c, &cfg, rot == 0)
 }
 
 // ---------------------------------------------------------------- canonical line (mirrors Driver.canon)
@@ -1075,6 +1090,31 @@ func (c *kase) canon(o *obs) string {
 	}
 	sb.WriteString(" s=" + joinOr(";", srvs))
 	sb.WriteString(" h=" + joinOr(";", served))
+	if o.phase2 {
+		m := ""
+		if o.phase2Err {
+			m = "err"
+		} else {
+			for _, n := range c.names {
+				key, ok := o.managing[n.s]
+				switch {
+				case !ok:
+					m += "0"
+				case key != "":
+					m += "i"
+				default:
+					m += "a"
+				}
+			}
+			for k := range o.managing {
+				if c.nameIdx(k) < 0 {
+					m += "!"
+					break
+				}
+			}
+		}
+		sb.WriteString(" m=" + m)
+	}
 	return sb.String()
 }
 
